@@ -72,7 +72,8 @@ WithNul(ls) == IF Len(ls) = 0 THEN ls ELSE <<ls[1], NULLINE>> \o Tail(ls)
 \* inside): --pre switches -z off, so a file that --pre-glob does not select is searched directly, as it is
 \* pairneg: --pre-glob '*.txt' then --pre-glob '!a.txt' (the later glob decides: not selected); pairpos: the same two in the
 \* other order (selected).  unrecuc: like unrec, the name carrying the codec's extension in UPPER case (not recognised either)
-Selected(s) == IF s.kind = "z" THEN s.zstate \notin {"unrec", "unrecuc"} ELSE s.preglob \in {"none", "sel", "negsel", "selz", "pairpos"}
+\* pathsel / pathunsel: a glob that holds a path separator, `d/*.txt` (selects d/a.txt) / `e/*.txt` (does not)
+Selected(s) == IF s.kind = "z" THEN s.zstate \notin {"unrec", "unrecuc"} ELSE s.preglob \in {"none", "sel", "negsel", "selz", "pairpos", "pathsel"}
 Spawned(s) == ~(s.kind = "missing" \/ (s.kind = "z" /\ s.zstate = "nocmd"))
 \* the model knows the bytes the command writes, except for a truncated archive
 \* (noisy: a valid archive whose decompressor first writes several hundred KB to its stderr and then succeeds: no effect)
